@@ -25,8 +25,8 @@ def run(tier):
     def J(name, budget, prefix, rule, bounds):
         return Job("harness.c11", name, H.shards(name, prefix), budget, bounds=bounds, rule=rule, describe=H.describe)
     if tier == "quick":
-        jobs = [J("collide3q", 200, 1, "one path = (module name pair, placements, contexts)", dict(module_names=H.NAMES3, placements=H.PLACEMENTS, contexts=["bare", "List"])),
-                J("tv_quick", 240, 4, "one path = (position, container context, type shape)", dict(grammar=H.TG_STUB1.describe(), positions=H.Q_POS, contexts=H.Q_CTX,
+        jobs = [J("collide3q", 600, 1, "one path = (module name pair, placements, contexts)", dict(module_names=H.NAMES3, placements=H.PLACEMENTS, contexts=["bare", "List"])),
+                J("tv_quick", 600, 4, "one path = (position, container context, type shape)", dict(grammar=H.TG_STUB1.describe(), positions=H.Q_POS, contexts=H.Q_CTX,
                                                                                             extra_classes=[c.__module__ + "." + c.__qualname__ for c in H.EXTRA_CLASSES]))]
     else:
         jobs = [J("collide3", 400, 1, "one path = (module name pair, placements, contexts)", dict(module_names=H.NAMES3, placements=H.PLACEMENTS, contexts=H.CONTEXTS)),
